@@ -98,7 +98,7 @@ func c18Gen(g *fw.GenCtx) []fw.Case {
 		}
 	}
 	// interleaved target graphs: every switching pattern of length <= 4
-	targets := []string{"A", "A2", "missing", "schema"}
+	targets := []string{"A", "A2", "missing", "schema", "blank"} // blank = an element without a graph name
 	var rec func(p []string)
 	rec = func(p []string) {
 		if len(p) > 0 {
@@ -207,7 +207,7 @@ func c18Exec(w *fw.Worker, c fw.Case) fw.Result {
 	env.n++
 	ctx := context.Background()
 	names := map[string]string{
-		"A": fmt.Sprintf("a%d", env.n), "A2": fmt.Sprintf("a%dx", env.n), "missing": fmt.Sprintf("missing%d", env.n), "schema": fmt.Sprintf("a%d__schema__", env.n),
+		"A": fmt.Sprintf("a%d", env.n), "A2": fmt.Sprintf("a%dx", env.n), "missing": fmt.Sprintf("missing%d", env.n), "schema": fmt.Sprintf("a%d__schema__", env.n), "blank": "",
 		"B": fmt.Sprintf("b%d", env.n), "B2": fmt.Sprintf("b%dx", env.n),
 	}
 	for _, k := range []string{"A", "A2", "B", "B2"} {
@@ -378,8 +378,13 @@ func c18StreamBatch(cc c18Case) fw.Result {
 
 func init() {
 	fw.Register(&fw.Property{
-		ID:   "C18",
-		Rule: "twin graphs on one live server: the stream goes through Edit/BulkAdd over gRPC into graph A (and A2), the valid elements of the same stream go one at a time through AddVertex/AddEdge into B (and B2); the complete states (all vertices and edges with data, label listings, duplicates, index invariants) must be equal and InsertCount/ErrorCount must equal the number of valid/invalid elements. Streams: lengths 0,1,2,49,50,51,99,100,101,999,1000,1001 (2050 in thorough) x {all valid, every 7th invalid, every 2nd invalid}; all ordered pairs from an 18-element pool (repeated ids with changing data, blank id/label/from/to, reserved and invalid property names); every switching pattern of length <= 4 over {A, A2, missing graph, schema graph}; 200 / 5000 random streams. util.StreamBatch is driven directly with batch sizes 1, 2, 50, 100 against a recording adder (valid elements, in order, batches within size). Non-trivial = at least one valid element.",
+		ID: "C18",
+		PeerWaitFrames: []string{ // a client waiting for the in-process server's answer
+			"google.golang.org/grpc/internal/transport.(*Stream).waitOnHeader",
+			"google.golang.org/grpc/internal/transport.(*recvBufferReader).read",
+			"google.golang.org/grpc/internal/transport.(*writeQuota).get",
+		},
+		Rule: "twin graphs on one live server: the stream goes through Edit/BulkAdd over gRPC into graph A (and A2), the valid elements of the same stream go one at a time through AddVertex/AddEdge into B (and B2); the complete states (all vertices and edges with data, label listings, duplicates, index invariants) must be equal and InsertCount/ErrorCount must equal the number of valid/invalid elements. Streams: lengths 0,1,2,49,50,51,99,100,101,999,1000,1001 (2050 in thorough) x {all valid, every 7th invalid, every 2nd invalid}; all ordered pairs from an 18-element pool (repeated ids with changing data, blank id/label/from/to, reserved and invalid property names); every switching pattern of length <= 4 over {A, A2, missing graph, schema graph, no graph name}; 200 / 5000 random streams. util.StreamBatch is driven directly with batch sizes 1, 2, 50, 100 against a recording adder (valid elements, in order, batches within size). Non-trivial = at least one valid element.",
 		Assumptions: []string{
 			"not generated because unspecified: elements carrying both a vertex and an edge or neither, edges without an id (the server assigns one), the same id twice in one stream with a different label/endpoints (known finding of C03)",
 			"the accounts variant (elements for graphs the caller may not write) is exercised by C05",
